@@ -97,6 +97,10 @@ fn c14_classify(t: &Trace, st: &mut Stats) -> bool {
                         nt |= len > 0;
                     }
                     AbandonAt::CancelThenCommit(_) => st.class("cancelled_write_then_commit"),
+                    AbandonAt::AfterShutdown => {
+                        st.class("abandon_after_stream_shutdown");
+                        nt |= len > 0;
+                    }
                 }
                 if crate::exec::declared_size(spec.declare, len).map(|d| d <= crate::gen::MIB && d > 0).unwrap_or(false) && (spec.key.is_none() || s.fl == Fl::Sync) {
                     st.class("abandoned_writer_was_memory_mapped");
